@@ -15,12 +15,11 @@ import (
 	"crypto/sha256"
 	"encoding/hex"
 	"encoding/json"
+	"flag"
 	"fmt"
 	"math/big"
 	"os"
-	"runtime"
 	"runtime/debug"
-	"runtime/pprof"
 	"sort"
 	"strings"
 	"time"
@@ -50,11 +49,11 @@ var (
 	addrs = map[string][]byte{"A": addrA, "B": addrB, "S": addrS}
 	names = []string{"A", "B", "S"}
 
-	codes = map[string][]byte{"c1": []byte("code-one"), "c2": []byte("code-two-longer"), "": nil}
-	keys  = map[string][]byte{"k1": []byte("k1"), "k2": []byte("key2")}
+	codes  = map[string][]byte{"c1": []byte("code-one"), "c2": []byte("code-two-longer"), "": nil}
+	keys   = map[string][]byte{"k1": []byte("k1"), "k2": []byte("key2")}
 	knames = []string{"k1", "k2"}
-	vals  = map[string][]byte{"x": []byte("x"), "y": []byte("yy"), "": nil}
-	meta1 = []byte{1, 0}
+	vals   = map[string][]byte{"x": []byte("x"), "y": []byte("yy"), "": nil}
+	meta1  = []byte{1, 0}
 
 	hasher      = blake2b.NewBlake2b()
 	marshalizer = &marshal.GogoProtoMarshalizer{}
@@ -68,6 +67,7 @@ const (
 	kCode
 	kStore
 	kRemove
+	kLoad
 	kSnapshot
 	kRevertSnap // arg = index from the top of the snapshot stack (0 = latest)
 	kRevertZero
@@ -82,7 +82,7 @@ type opDef struct {
 	n    int
 }
 
-const maxSnaps = 3
+const maxSnaps = 2
 const maxNonce = 2
 
 func buildMenu() []opDef {
@@ -105,6 +105,7 @@ func buildMenu() []opDef {
 		{name: "store(B,k1,x)", kind: kStore, who: "B", a: "k1", b: "x"},
 		{name: "remove(S)", kind: kRemove, who: "S"},
 		{name: "remove(B)", kind: kRemove, who: "B"},
+		{name: "load(S)", kind: kLoad, who: "S"},
 		{name: "snapshot", kind: kSnapshot},
 	}
 	for i := 0; i < maxSnaps; i++ {
@@ -204,10 +205,18 @@ type world struct {
 	committedRoot string
 	snaps         []snap
 
-	// result of the last step
+	// the last step (judged by check)
 	sig, detail string
 	nt, out     string
-	cur         *obs
+	step        struct {
+		op         opDef
+		done       bool
+		expect     *obs // exact observation demanded after a revert (nil: none recorded)
+		reverted   string
+		revKinds   []string
+		refsBefore map[string]int
+	}
+	cur *obs // observation made by check (nil until then)
 }
 
 func newWorld(prop string) *world {
@@ -229,8 +238,9 @@ func newWorld(prop string) *world {
 	adb, err := state.NewAccountsDB(tr, hasher, marshalizer, factory.NewAccountCreator(), spm)
 	must(err)
 	w := &world{prop: prop, adb: adb, tsm: tsm, db: db, ref: rstate{}, committed: rstate{}}
-	w.cur = w.observe()
-	w.committedRoot = w.cur.Root
+	rh, err := adb.RootHash()
+	must(err)
+	w.committedRoot = hx(rh) // "last committed state" before any Commit = the empty state
 	return w
 }
 
@@ -247,8 +257,13 @@ func (w *world) close() {
 
 func hx(b []byte) string { return hex.EncodeToString(b) }
 
-// observe reads the complete state back through the public API only.
+// observe reads the complete state back through the public API only. GetExistingAccount
+// caches the data tries it loads in AccountsDB.dataTries; that cache is put back afterwards
+// so that observing does not change which histories are explored (loading is an explicit
+// operation of the alphabet instead).
 func (w *world) observe() *obs {
+	held := state.VerifLoadedDataTries(w.adb)
+	defer state.VerifRestoreLoadedDataTries(w.adb, held)
 	o := &obs{Acc: map[string]*oacct{}}
 	rh, err := w.adb.RootHash()
 	o.Root = hx(rh)
@@ -291,84 +306,81 @@ func (w *world) observe() *obs {
 	return o
 }
 
-// diffRef lists the field classes in which the implementation differs from the reference.
-func diffRef(o *obs, r rstate) []string {
-	var d []string
+// refObs renders the reference as the observation it demands ("*" = not determined by the
+// reference: state root and data-trie roots).
+func refObs(r rstate) *obs {
+	o := &obs{Root: "*", Acc: map[string]*oacct{}}
 	for _, n := range names {
-		oa, ra := o.Acc[n], r[n]
-		if oa.Err != "" {
-			d = append(d, "account-unreadable")
-			continue
-		}
-		if oa.Exists != (ra != nil) {
-			d = append(d, "account-existence")
-			continue
-		}
+		oa := &oacct{Store: map[string]string{}, DataRoot: "*"}
+		o.Acc[n] = oa
+		ra := r[n]
 		if ra == nil {
 			continue
 		}
-		if oa.Bal != fmt.Sprint(ra.Bal) {
-			d = append(d, "balance")
-		}
-		if oa.Nonce != ra.Nonce {
-			d = append(d, "nonce")
-		}
-		if oa.Owner != ra.Owner {
-			d = append(d, "owner")
-		}
-		if oa.Meta != ra.Meta {
-			d = append(d, "code-metadata")
-		}
-		wantCode := hx(codes[ra.Code])
-		if oa.Code != wantCode || (ra.Code == "") != (oa.CodeHash == "") {
-			d = append(d, "code")
+		oa.Exists = true
+		oa.Bal = fmt.Sprint(ra.Bal)
+		oa.Nonce = ra.Nonce
+		oa.Owner = ra.Owner
+		oa.Meta = ra.Meta
+		if ra.Code != "" {
+			oa.Code = hx(codes[ra.Code])
+			oa.CodeHash = hx(hasher.Compute(string(codes[ra.Code])))
 		}
 		for _, k := range knames {
-			if oa.Store[k] != hx(vals[ra.Store[k]]) {
-				d = append(d, "storage-value")
-			}
+			oa.Store[k] = hx(vals[ra.Store[k]])
 		}
 	}
-	return uniq(d)
+	return o
 }
 
-// diffObs lists the field classes in which two observations differ.
-func diffObs(a, b *obs) []string {
-	var d []string
-	if a.Root != b.Root {
-		d = append(d, "state-root")
+// diffObs compares an observation with a demanded one: the field classes that differ (for
+// the signature) and one readable line per difference (for the witness).
+func diffObs(got, want *obs, wantName string) (classes, lines []string) {
+	add := func(class, where string, g, w interface{}) {
+		classes = append(classes, class)
+		lines = append(lines, fmt.Sprintf("%s: got %v, %s %v", where, g, wantName, w))
+	}
+	if want.Root != "*" && got.Root != want.Root {
+		add("state-root", "RootHash()", got.Root, want.Root)
 	}
 	for _, n := range names {
-		x, y := a.Acc[n], b.Acc[n]
-		if x.Exists != y.Exists || x.Err != y.Err {
-			d = append(d, "account-existence")
+		x, y := got.Acc[n], want.Acc[n]
+		if x.Err != y.Err {
+			add("account-unreadable", n, "error "+x.Err, "error "+y.Err)
+			continue
+		}
+		if x.Exists != y.Exists {
+			add("account-existence", n+" exists", x.Exists, y.Exists)
 			continue
 		}
 		if x.Bal != y.Bal {
-			d = append(d, "balance")
+			add("balance", n+".balance", x.Bal, y.Bal)
 		}
 		if x.Nonce != y.Nonce {
-			d = append(d, "nonce")
+			add("nonce", n+".nonce", x.Nonce, y.Nonce)
 		}
 		if x.Owner != y.Owner {
-			d = append(d, "owner")
+			add("owner", n+".owner", x.Owner, y.Owner)
 		}
 		if x.Meta != y.Meta {
-			d = append(d, "code-metadata")
+			add("code-metadata", n+".codeMetadata", x.Meta, y.Meta)
 		}
-		if x.Code != y.Code || x.CodeHash != y.CodeHash {
-			d = append(d, "code")
+		if x.CodeHash != y.CodeHash {
+			add("code", n+".codeHash", x.CodeHash, y.CodeHash)
 		}
-		if x.DataRoot != y.DataRoot {
-			d = append(d, "data-root")
+		if x.Code != y.Code {
+			add("code", "GetCode("+n+".codeHash)", x.Code, y.Code)
+		}
+		if y.DataRoot != "*" && x.DataRoot != y.DataRoot {
+			add("data-root", n+".rootHash", x.DataRoot, y.DataRoot)
 		}
 		for _, k := range knames {
 			if x.Store[k] != y.Store[k] {
-				d = append(d, "storage-value")
+				add("storage-value", n+".storage["+k+"]", "'"+x.Store[k]+"'", "'"+y.Store[k]+"'")
 			}
 		}
 	}
-	return uniq(d)
+	return uniq(classes), lines
 }
 
 func uniq(d []string) []string {
@@ -389,7 +401,7 @@ func (w *world) enabled(op opDef) bool {
 	case kNonce:
 		a := w.ref[op.who]
 		return a == nil || a.Nonce < maxNonce
-	case kRemove:
+	case kRemove, kLoad:
 		return w.ref[op.who] != nil
 	case kSnapshot:
 		jl := w.adb.JournalLen()
@@ -499,38 +511,44 @@ func (w *world) fail(sig string, detail interface{}) {
 }
 
 func (w *world) do(op opDef) {
-	w.sig, w.detail, w.nt, w.out = "", "", "", ""
+	w.sig, w.detail, w.nt, w.out, w.cur = "", "", "", "", nil
 	pre := w.adb.JournalLen()
-	refsBefore := codeRefs(w.ref)
-	var expect *obs // exact observation demanded after a revert
-	var revKinds []string
-	reverted := ""
+	st := &w.step
+	st.op, st.done, st.expect, st.reverted, st.revKinds = op, true, nil, "", nil
+	st.refsBefore = codeRefs(w.ref)
 	switch op.kind {
 	case kSnapshot:
-		w.snaps = append(w.snaps, snap{jlen: pre, ref: w.ref.clone(), obs: w.cur})
+		w.snaps = append(w.snaps, snap{jlen: pre, ref: w.ref.clone(), obs: w.observe()})
 		w.out = "snapshot"
+	case kLoad:
+		// what a processor does when it only reads an account (e.g. a transaction that fails
+		// its checks): the data trie gets cached in AccountsDB.dataTries
+		if _, err := w.adb.LoadAccount(append([]byte{}, addrs[op.who]...)); err != nil {
+			w.fail("load-account-returned-error", err)
+		}
+		w.out = "load"
 	case kRevertSnap:
 		idx := len(w.snaps) - 1 - op.n
 		s := w.snaps[idx]
-		revKinds = state.VerifJournalKinds(w.adb, s.jlen)
+		st.revKinds = state.VerifJournalKinds(w.adb, s.jlen)
 		if err := w.adb.RevertToSnapshot(s.jlen); err != nil {
 			w.fail("revert-to-recorded-length-returned-error", err)
 		}
 		w.ref = s.ref.clone()
 		w.snaps = w.snaps[:idx+1]
-		expect = s.obs
-		reverted = "snapshot"
+		st.expect = s.obs
+		st.reverted = "snapshot"
 		if jl := w.adb.JournalLen(); jl != s.jlen {
 			w.fail("journal-length-after-revert-differs", fmt.Sprint(jl, " want ", s.jlen))
 		}
 	case kRevertZero:
-		revKinds = state.VerifJournalKinds(w.adb, 0)
+		st.revKinds = state.VerifJournalKinds(w.adb, 0)
 		if err := w.adb.RevertToSnapshot(0); err != nil {
 			w.fail("revert-to-zero-returned-error", err)
 		}
 		w.ref = w.committed.clone()
 		w.snaps = nil
-		reverted = "zero"
+		st.reverted = "zero"
 	case kCommit:
 		root, err := w.adb.Commit()
 		if err != nil {
@@ -541,6 +559,12 @@ func (w *world) do(op opDef) {
 		w.snaps = nil
 		w.out = "commit"
 	default:
+		var before *obs
+		if op.kind == kRemove {
+			// the one operation that is expected to fail in some states (data trie of the
+			// account not yet committed): record the exact pre-state for the revert check
+			before = w.observe()
+		}
 		err := w.accountOp(op)
 		if err != nil {
 			// what scProcessor/txProcessor do: revert to the journal length before the operation
@@ -549,26 +573,36 @@ func (w *world) do(op opDef) {
 				w.fail("revert-after-failed-operation-returned-error", e2)
 			}
 			if pre == 0 {
-				// RevertToSnapshot(0) = last committed state; nothing was journaled before
 				w.snaps = nil
 			}
-			expect = w.cur
-			reverted = "failed-op"
+			st.expect = before // nil for the other operations: judged against the reference only
+			st.reverted = "failed-op"
 		} else {
 			w.refApply(op)
 			w.out = "ok:" + op.name[:strings.Index(op.name, "(")]
 		}
 	}
-	prev := w.cur
-	w.cur = w.observe()
+}
 
+// check observes the implementation and evaluates the oracle of the selected property for
+// the step just made (BFS calls it once per explored transition, not for replayed prefixes).
+func (w *world) check() {
+	w.cur = w.observe()
+	if w.sig != "" || !w.step.done {
+		if !w.step.done {
+			if d, l := diffObs(w.cur, refObs(w.ref), "reference"); len(d) > 0 {
+				w.fail("initial-state-not-empty", strings.Join(l, "; "))
+			}
+		}
+		return
+	}
+	st := &w.step
 	switch w.prop {
 	case "C06":
-		w.checkC06(op, expect, reverted, revKinds)
+		w.checkC06(st.op, st.expect, st.reverted, st.revKinds)
 	case "C07":
-		w.checkC07(op, refsBefore)
+		w.checkC07(st.op, st.refsBefore)
 	}
-	_ = prev
 }
 
 func errClass(err error) string {
@@ -584,29 +618,23 @@ func errClass(err error) string {
 // committed reference and the root returned by the last Commit. Sanity after every other
 // operation: implementation == reference.
 func (w *world) checkC06(op opDef, expect *obs, reverted string, revKinds []string) {
-	dr := diffRef(w.cur, w.ref)
+	dr, lr := diffObs(w.cur, refObs(w.ref), "reference")
 	if reverted == "" {
 		if len(dr) > 0 {
-			w.fail("state-differs-from-reference-after-operation:"+strings.Join(dr, "+"),
-				map[string]interface{}{"got": w.cur, "want": w.ref.String()})
+			w.fail("state-differs-from-reference-after-operation:"+strings.Join(dr, "+"), strings.Join(lr, "; "))
 		}
 		return
 	}
-	var d []string
+	var d, l []string
 	if expect != nil {
-		d = diffObs(w.cur, expect)
-	} else if w.cur.Root != w.committedRoot {
-		d = []string{"state-root"}
+		d, l = diffObs(w.cur, expect, "recorded-at-snapshot")
+	} else if reverted == "zero" && w.cur.Root != w.committedRoot {
+		d, l = []string{"state-root"}, []string{fmt.Sprintf("RootHash(): got %s, last-commit %s", w.cur.Root, w.committedRoot)}
 	}
 	d = uniq(append(d, dr...))
 	if len(d) > 0 {
-		what := map[string]interface{}{"got": w.cur, "want_reference": w.ref.String()}
-		if expect != nil {
-			what["want_recorded"] = expect
-		} else {
-			what["want_root"] = w.committedRoot
-		}
-		w.fail("revert-"+reverted+"-inexact:"+strings.Join(d, "+"), what)
+		w.fail("revert-"+reverted+"-inexact:"+strings.Join(d, "+"),
+			fmt.Sprintf("%s (reverted journal span: %v; reference now %s)", strings.Join(append(l, lr...), "; "), revKinds, w.ref.String()))
 	}
 	w.out = "revert-" + reverted + ":" + fmt.Sprint(len(revKinds))
 	if reverted != "failed-op" {
@@ -682,6 +710,9 @@ func (w *world) checkC07(op opDef, refsBefore map[string]int) {
 // ---------------------------------------------------------------- canonical state key
 
 func (w *world) key() string {
+	if w.cur == nil {
+		w.cur = w.observe()
+	}
 	var sb strings.Builder
 	fmt.Fprintf(&sb, "root=%s last=%s croot=%s\n", w.cur.Root, hx(state.VerifLastRootHash(w.adb)), w.committedRoot)
 	lt := state.VerifLoadedDataTries(w.adb)
@@ -723,42 +754,115 @@ func (w *world) key() string {
 
 // ---------------------------------------------------------------- main
 
+// sub-alphabets ("core" menus) searched two steps deeper than the full alphabet
+var coreMenus = map[string][]string{
+	// data-trie / code / removal interplay with snapshots
+	"C06": {"bal(S,1)", "code(S,c1)", "code(S,-)", "code(B,c1)", "store(S,k1,x)", "store(S,k1,-)", "store(S,k2,x)",
+		"remove(S)", "load(S)", "snapshot", "revert(snap top-0)", "revert(snap top-1)", "revert(0)", "commit"},
+	// everything that touches code entries, plus a storage write (makes RemoveAccount fail
+	// while the data trie is uncommitted) and a plain field change
+	"C07": {"bal(S,1)", "code(S,c1)", "code(S,c2)", "code(S,-)", "code(B,c1)", "code(B,-)", "store(S,k1,x)",
+		"remove(S)", "remove(B)", "snapshot", "revert(snap top-0)", "revert(snap top-1)", "revert(0)", "commit"},
+}
+
+func subMenu(full []opDef, names []string) []opDef {
+	var r []opDef
+	for _, n := range names {
+		found := false
+		for _, o := range full {
+			if o.name == n {
+				r = append(r, o)
+				found = true
+			}
+		}
+		if !found {
+			panic("unknown operation " + n)
+		}
+	}
+	return r
+}
+
+func opNames(menu []opDef) []string {
+	r := make([]string, len(menu))
+	for i, o := range menu {
+		r[i] = o.name
+	}
+	return r
+}
+
+func search(c *mc.Ctx, menu []opDef, depth int) mc.BFSStats {
+	return mc.BFS(c, mc.Sys[*world]{
+		Init:    func() *world { return newWorld(c.Prop) },
+		Menu:    opNames(menu),
+		Enabled: func(w *world, op int) bool { return w.enabled(menu[op]) },
+		Do: func(w *world, op int) (string, string) {
+			w.do(menu[op])
+			return w.sig, w.detail
+		},
+		Check: func(w *world) (string, string) {
+			w.check()
+			return w.sig, w.detail
+		},
+		Key:        func(w *world) string { return w.key() },
+		Nontrivial: func(w *world) string { return w.nt },
+		Outcome:    func(w *world) string { return w.out },
+		Close:      func(w *world) { w.close() },
+	}, depth)
+}
+
+// replay re-runs one recorded history (list of operation names), judging every step.
+func replay(c *mc.Ctx, full []opDef) {
+	var hist []string
+	if err := json.Unmarshal(c.ReplayData, &hist); err != nil {
+		c.Fatal("replay data is not a list of operation names: %v", err)
+	}
+	w := newWorld(c.Prop)
+	defer w.close()
+	for i, n := range hist {
+		op := subMenu(full, []string{n})[0]
+		if !w.enabled(op) {
+			c.Fatal("replay: %s not enabled at step %d", n, i)
+		}
+		w.do(op)
+		w.check()
+		c.Eval(1)
+		if w.sig != "" {
+			c.Violation(w.sig, map[string]interface{}{"history": hist[:i+1], "what": w.detail}, hist[:i+1])
+			return
+		}
+	}
+}
+
 func main() {
 	_ = logger.SetLogLevel("*:NONE")
 	// the search allocates short-lived tries at a high rate on a tiny live heap: with the
-	// default GC target the collector runs (and stops the world) hundreds of times per second
-	debug.SetGCPercent(-1)
-	debug.SetMemoryLimit(3 << 30)
-	if pf := os.Getenv("VERIF_PPROF"); pf != "" {
-		f, _ := os.Create(pf)
-		pprof.StartCPUProfile(f)
-		runtime.SetBlockProfileRate(10000)
-		go func() {
-			time.Sleep(40 * time.Second)
-			pprof.StopCPUProfile()
-			f.Close()
-			g, _ := os.Create(pf + ".block")
-			pprof.Lookup("block").WriteTo(g, 0)
-			g.Close()
-		}()
+	// default GC target the collector would run hundreds of times per second
+	if os.Getenv("GOGC") == "" {
+		debug.SetGCPercent(400)
 	}
+	depthFlag := flag.Int("depth", 0, "override the full-alphabet search depth (development aid)")
+	coreFlag := flag.Int("coredepth", -1, "override the core-alphabet search depth, 0 = skip (development aid)")
 	mc.Main("C06", "model_checking", func(c *mc.Ctx) {
 		if c.Prop != "C06" && c.Prop != "C07" {
 			c.Fatal("harness adb serves C06 and C07, not %s", c.Prop)
 		}
 		c.Level = "model_checking"
 		menu := buildMenu()
-		mnames := make([]string, len(menu))
-		for i, o := range menu {
-			mnames[i] = o.name
+		core := subMenu(menu, coreMenus[c.Prop])
+		depth, coreDepth := c.Pick(4, 6), c.Pick(6, 7)
+		if *depthFlag > 0 {
+			depth = *depthFlag
 		}
-		depth := c.Pick(4, 6)
+		if *coreFlag >= 0 {
+			coreDepth = *coreFlag
+		}
 		if c.Quick() {
-			c.Deadline = time.Now().Add(80 * time.Second)
+			c.Deadline = time.Now().Add(85 * time.Second)
 		} else {
 			c.Deadline = time.Now().Add(14 * time.Minute)
 		}
-		c.Set("alphabet", mnames)
+		c.Set("alphabet", opNames(menu))
+		c.Set("core_alphabet", opNames(core))
 		switch c.Prop {
 		case "C06":
 			c.Rule = "non-trivial = a RevertToSnapshot (to a recorded journal length or to 0) whose undone journal span contains >= 2 different journal-entry kinds (key = the kind sequence of the span)"
@@ -767,25 +871,20 @@ func main() {
 		}
 		c.Assumptions = []string{
 			"accounts A,B,S; codes c1,c2; keys k1,k2; values x,yy; balances {1,2}; nonce <= 2; every operation is LoadAccount+mutate+SaveAccount (or RemoveAccount) with fresh byte slices",
-			"snapshots are taken at operation boundaries only (the only ones the API produces); recorded lengths are dropped at Commit and when a revert goes below them; at most 3 live snapshots",
+			"snapshots are taken at operation boundaries only (the only ones the API produces); recorded lengths are dropped at Commit and when a revert goes below them; at most 2 live snapshots",
 			"an operation returning an error is followed by RevertToSnapshot(length before the operation), as scProcessor/txProcessor do, and is then judged like any revert",
-			"after every operation the whole state is read back through GetExistingAccount/GetCode/RetrieveValue (this loads data tries into AccountsDB.dataTries, as later transactions of a block would)",
+			"the oracle reads the whole state back through GetExistingAccount/GetCode/RetrieveValue after the last operation of every explored sequence; the data-trie cache AccountsDB.dataTries is put back after reading so that observing does not alter the explored histories (load(S) is the explicit read-only operation)",
 			"state matching key = main root, lastRootHash, loaded data tries (address->root), obsolete data-trie roots, DB key set, reference + committed reference, live snapshots and the serialized journal entries above the lowest live snapshot; entries below it are never read by RevertToSnapshot; trie-internal caching/dirty flags and the eviction waiting list are assumed not to influence reads (no pruning calls in the alphabet)",
 		}
-		st := mc.BFS(c, mc.Sys[*world]{
-			Init:    func() *world { return newWorld(c.Prop) },
-			Menu:    mnames,
-			Enabled: func(w *world, op int) bool { return w.enabled(menu[op]) },
-			Do: func(w *world, op int) (string, string) {
-				w.do(menu[op])
-				return w.sig, w.detail
-			},
-			Check:      func(w *world) (string, string) { return "", "" },
-			Key:        func(w *world) string { return w.key() },
-			Nontrivial: func(w *world) string { return w.nt },
-			Outcome:    func(w *world) string { return w.out },
-			Close:      func(w *world) { w.close() },
-		}, depth)
-		c.Bound = fmt.Sprintf("all operation sequences of length <= %d over the %d-operation alphabet (depth reached %d, fixpoint=%v)", depth, len(menu), st.Depth, st.Fixpoint)
+		if len(c.ReplayData) > 0 {
+			replay(c, menu)
+			return
+		}
+		st := search(c, menu, depth)
+		c.Bound = fmt.Sprintf("all operation sequences of length <= %d over the full %d-operation alphabet (depth reached %d, fixpoint=%v)", depth, len(menu), st.Depth, st.Fixpoint)
+		if coreDepth > 0 {
+			st2 := search(c, core, coreDepth)
+			c.Bound += fmt.Sprintf(" + all sequences of length <= %d over the %d-operation core alphabet (depth reached %d, fixpoint=%v)", coreDepth, len(core), st2.Depth, st2.Fixpoint)
+		}
 	})
 }
